@@ -239,6 +239,15 @@ func (st *State) havocAll(reason string) {
 	}
 	sort.Strings(keys)
 	old := st.heap
+	// lock state that no instruction has touched yet still has its entry-epoch name: it has to survive the havoc like
+	// touched lock state does (otherwise the first Lock after an unknown callee sees an unconstrained lock state)
+	for _, lk := range [][2]string{{"L:w", "(Array Int Bool)"}, {"L:r", "(Array Int Int)"}} {
+		if _, ok := old[lk[0]]; !ok {
+			old[lk[0]] = st.heapGet(lk[0], lk[1])
+			keys = append(keys, lk[0])
+		}
+	}
+	sort.Strings(keys)
 	st.heap = map[string]string{}
 	st.epoch++
 	// touch every known key so that the new epoch constant is used
@@ -255,6 +264,9 @@ func (st *State) havocAll(reason string) {
 		if strings.HasPrefix(k, "V:") {
 			continue
 		}
+		if !strings.HasPrefix(as, "(Array Int ") {
+			continue // ghost state keyed by strings or bytes (file system view): no object references to protect
+		}
 		for _, r := range st.protected {
 			st.assume(eq(sel(n, r), sel(old[k], r)))
 		}
@@ -269,7 +281,7 @@ func (st *State) havocKey(key string) {
 	old := st.heapGet(key, as)
 	n := st.fresh("hv", as)
 	st.heap[key] = n
-	if strings.HasPrefix(key, "V:") {
+	if strings.HasPrefix(key, "V:") || !strings.HasPrefix(as, "(Array Int ") {
 		return
 	}
 	for _, r := range st.protected {
